@@ -1219,6 +1219,8 @@ def run_bounded_case(ctx, seq, label, lines, term, tbq, want, scoped, spec_per, 
 # ------------------------------------------------------------------------------------------------ one case, all front-ends
 
 _PREVIOUS = {}
+READER_RUNS = []      # [front-end, tbq, [line hex]] of the reader-level runs made outside run_case (tools/props/C05_readers.py
+#                       check_sequence) in this process: part of the history a replay may need (shared list + position)
 
 
 def run_case(ctx, seq, label, term=b'', tbq=False, frontends=None, cache=None, tmpdir=None, want=('C03', 'C07', 'C18'),
@@ -1233,7 +1235,7 @@ def run_case(ctx, seq, label, term=b'', tbq=False, frontends=None, cache=None, t
     # a failure caused by state that EARLIER readers / queues left behind (class-level or module-level state in the library)
     # only reproduces after those earlier cases: the replay refers to all cases run before it in this process (shared list)
     hist = _PREVIOUS.setdefault('cases', [])
-    previous = {'cases': hist, 'upto': len(hist)}
+    previous = {'cases': hist, 'upto': len(hist), 'runs': READER_RUNS, 'runs_upto': len(READER_RUNS)}
     if not _PREVIOUS.get('replaying'):
         hist.append({'seq': seq, 'term': term.hex(), 'tbq': tbq, 'label': label, 'frontends': list(frontends or FRONTENDS)})
     scoped = in_scope(seq) if scoped is None else scoped
@@ -1659,6 +1661,11 @@ def replay_case(ctx, data, want):
         _PREVIOUS['replaying'] = True
         prev = data.get('previous') or {}
         r = None
+        for name, tbq_, hexes in (prev.get('runs') or [])[:prev.get('runs_upto', 0)]:      # reader-level runs made before it
+            try:
+                run_frontend(name, [bytes.fromhex(h) for h in hexes], tbq_, tmpdir=tmpdir)
+            except Exception:      # noqa: BLE001
+                pass
         for k, pc in enumerate(prev.get('cases', [])[:prev.get('upto', 0)]):
             # the cases that preceded it in the recorded run first (same process, new reader / queue objects): a failure caused
             # by state that leaks between objects needs them.  (If one of THEM already violates, that is the answer.)
